@@ -8,6 +8,7 @@ from abc import ABC
 from abc import abstractmethod
 from typing import TYPE_CHECKING
 from typing import Any
+from typing import AsyncIterable
 from typing import Callable
 from typing import Generic
 from typing import Iterable
@@ -27,6 +28,7 @@ from .selectors import ListSelector
 from .serialize import canonical_string
 
 if TYPE_CHECKING:
+    from .match import JSONPathMatch
     from .path import JSONPath
     from .selectors import FilterContext
 
@@ -534,31 +536,32 @@ class SelfPath(Path):
     def __str__(self) -> str:
         return "@" + str(self.path)[1:]
 
-    def evaluate(self, context: FilterContext) -> object:
-        if isinstance(context.current, str):  # TODO: refactor
-            if self.path.empty():
-                return context.current
-            return NodeList()
-        if not isinstance(context.current, (Sequence, Mapping)):
-            if self.path.empty():
-                return context.current
-            return NodeList()
+    def _current_node(self, context: FilterContext) -> JSONPathMatch:
+        # The current node starts a relative query. It keeps the root value and
+        # filter context of the query it is embedded in, whatever its type.
+        return context.env.match_class(
+            filter_context=context.extra_context,
+            obj=context.current,
+            parent=None,
+            path=context.env.root_token,
+            parts=(),
+            root=context.root,
+        )
 
-        return NodeList(self.path.finditer(context.current))
+    def evaluate(self, context: FilterContext) -> object:
+        matches: Iterable[JSONPathMatch] = [self._current_node(context)]
+        for selector in self.path.selectors:
+            matches = selector.resolve(matches)
+        return NodeList(matches)
 
     async def evaluate_async(self, context: FilterContext) -> object:
-        if isinstance(context.current, str):  # TODO: refactor
-            if self.path.empty():
-                return context.current
-            return NodeList()
-        if not isinstance(context.current, (Sequence, Mapping)):
-            if self.path.empty():
-                return context.current
-            return NodeList()
+        async def current_node() -> AsyncIterable[JSONPathMatch]:
+            yield self._current_node(context)
 
-        return NodeList(
-            [match async for match in await self.path.finditer_async(context.current)]
-        )
+        matches: AsyncIterable[JSONPathMatch] = current_node()
+        for selector in self.path.selectors:
+            matches = selector.resolve_async(matches)
+        return NodeList([match async for match in matches])
 
 
 class RootPath(Path):
